@@ -613,27 +613,40 @@ GROUPS = {
 }
 
 
-def impl_match(case):
+def match_obs(m):
+    """one regex match -> the groups `_tokenize_template` reads (same shape as Driver/C10.lean `matchJson`)"""
+    kind = m.lastgroup
+    o = {"kind": kind, "start": m.start(), "stop": m.end(), "value": m.group()}
+    for g, t in GROUPS.get(kind, ()):
+        v = m.group(g)
+        o[g] = bool(v) if t == "b" else (v if v is not None else "")
+    if kind == "output":
+        o["stmtStart"] = m.start("stmt")
+    if kind == "TAG":
+        o["nameStart"] = m.start("name")
+        # the tokenizer reads start("expr") only when the group is non-empty
+        o["exprStart"] = m.start("expr") if m.group("expr") else None
+    return o
+
+
+_RULES: dict = {}
+
+
+def get_rules(d):
     from liquid.lex import compile_liquid_rules
 
+    key = tuple(d)
+    if key not in _RULES:
+        _RULES[key] = compile_liquid_rules(*d)
+    return _RULES[key]
+
+
+def impl_match(case):
     d = delims(case)
     src = assemble(d, case["ps"])
-    rules = compile_liquid_rules(*d)
-    ms = []
-    for m in rules.finditer(src):
-        kind = m.lastgroup
-        o = {"kind": kind, "start": m.start(), "stop": m.end(), "value": m.group()}
-        for g, t in GROUPS.get(kind, ()):
-            v = m.group(g)
-            o[g] = bool(v) if t == "b" else (v if v is not None else "")
-        if kind == "output":
-            o["stmtStart"] = m.start("stmt")
-        if kind == "TAG":
-            o["nameStart"] = m.start("name")
-            # the tokenizer reads start("expr") only when the group is non-empty
-            o["exprStart"] = m.start("expr") if m.group("expr") else None
-        ms.append(o)
-    return {"src": src, "wf": True, "matches": ms}
+    ms = [match_obs(m) for m in get_rules(d).finditer(src)]
+    # scan_eq: the model's string-level scanner must find the model's piece matches (computed by the driver)
+    return {"src": src, "wf": True, "scan_eq": True, "matches": ms}
 
 
 def impl_tokens(case):
@@ -651,13 +664,41 @@ def impl_tokens(case):
     return {"tokens": toks}
 
 
+def _run_coro(make):
+    """run a coroutine that never really suspends (no loaders involved) without an event loop; fall back to one"""
+    coro = make()
+    try:
+        coro.send(None)
+    except StopIteration as stop:
+        return stop.value
+    coro.close()
+    import asyncio
+
+    loop = asyncio.new_event_loop()
+    try:
+        return loop.run_until_complete(make())
+    finally:
+        loop.close()
+
+
 def impl_render(case):
+    """render synchronously and asynchronously; one observation when they agree"""
     env = get_env(case["d"])
     src = assemble(delims(case), case["ps"])
     try:
-        return {"out": env.from_string(src).render()}
+        t = env.from_string(src)
+        sync = {"out": t.render()}
     except Exception as e:
-        return {"err": type(e).__name__}
+        sync = {"err": type(e).__name__}
+        t = None
+    try:
+        t2 = env.from_string(src)
+        asyn = {"out": _run_coro(lambda: t2.render_async())}
+    except Exception as e:
+        asyn = {"err": type(e).__name__}
+    if asyn != sync:
+        return dict(sync, async_differs=asyn)
+    return sync
 
 
 def impl_nodes(case):
@@ -790,6 +831,79 @@ class StripStream(Stream):
         return obs[0] != case["s"] or obs[1] != case["s"]
 
 
+SCAN_ATOMS = ["{%", "%}", "{{", "}}", "-", " ", "raw", "endraw", "x", "#"]
+SCAN_ATOMS_C = ["{#", "#}", "{%", "%}", "-", " ", "c", "{{", "}}", "\n"]
+SCAN_RANDOM_ATOMS = [
+    "{%", "%}", "{{", "}}", "{#", "#}", "-", "-", " ", " ", "\n", "\t", "\r\n", "\u00a0", "\u2028", "\x0c", "raw", "endraw", "doc", "enddoc",
+    "comment", "endcomment", "#", "a", "x1", "_", "if x", "'s'", "{", "}", "%", "liquid", "echo 1", "=", "|", "--", "{%-", "-%}",
+    "{{-", "-}}", "{#-", "-#}", "{% raw %}", "{% endraw %}", "{%- endraw -%}", "{%raw%}", "{%-\nraw\t-%}", "{% doc %}", "{% enddoc %}",
+    "{% enddoc -%}", "{{ x }}", "{{- x -}}", "{{x}}", "{% if a %}", "{%- # c -%}", "{% #c%}", "{# c #}", "{#- c -#}", "{% comment %}",
+    "{% endcomment %}", "{% rawx %}", "{% raw x %}", "{% end raw %}", "{{ 'a' | f: 1 }}", "{%%}", "{{}}", "{##}", "{%-%}", "{{-}}", "{#-#}",
+]
+
+
+class ScanStream(Stream):
+    """ARBITRARY strings (mostly not assembled from pieces, mostly malformed): `rules.finditer` of the compiled
+    regex against the model's hand-written string scanner `scan` (Model/LexScan.lean) — kind, span, every group the
+    tokenizer reads. This is where the regex engine is trusted and measured."""
+
+    name = "scan"
+
+    def cases(self, ctx):
+        import itertools
+
+        out = []
+        L = ctx.scale(3, 4)
+        for d, atoms in (("default", SCAN_ATOMS), ("comments", SCAN_ATOMS_C)):
+            for n in range(0, L + 1):
+                for tup in itertools.product(atoms, repeat=n):
+                    out.append({"d": d, "s": "".join(tup)})
+        rng = ctx.rng_for("scan")
+        for _ in range(ctx.scale(4000, 60000)):
+            d = "comments" if rng.chance(45) else "default"
+            n = rng.range(1, 12)
+            out.append({"d": d, "s": "".join(rng.choice(SCAN_RANDOM_ATOMS) for _ in range(n))})
+        return out
+
+    def impl(self, case):
+        from liquid.exceptions import LiquidSyntaxError
+
+        d = delims(case)
+        out = {"matches": [match_obs(m) for m in get_rules(d).finditer(case["s"])]}
+        # the whole lexer on the same arbitrary string: tokens (kind, value, start) or the end-of-file error
+        try:
+            out["tokens"] = {"tokens": [[t.kind, t.value, t.start_index] for t in get_env(case["d"]).tokenizer()(case["s"])]}
+        except LiquidSyntaxError as e:
+            first = str(e).split("\n")[0]
+            out["tokens"] = {"err": "eof-in-output" if "'}}'" in first else "eof-in-tag" if "'%}'" in first else "syntax"}
+        return out
+
+    def line(self, case):
+        return ["c10_scan", delims(case), case["s"]]
+
+    def canon_model(self, case, mobs):
+        mobs = unesc(mobs)
+        if isinstance(mobs, dict) and "tokens" in mobs:
+            return {"matches": canon_level("match", {"matches": mobs["matches"]})["matches"], "tokens": canon_level("tokens", mobs["tokens"])}
+        return mobs
+
+    def oracle(self, case, obs):
+        # the matches of the alternation tile the string (the content rule matches anything non-empty)
+        if "".join(m["value"] for m in obs["matches"]) != case["s"]:
+            return ("scan|matches-do-not-tile", "finditer skipped characters")
+        return None
+
+    def nontrivial(self, case, obs):
+        return any(m["kind"] != "content" for m in obs["matches"]) or len(obs["matches"]) >= 2
+
+    def tags(self, case, obs):
+        t = {case["d"]}
+        for m in obs["matches"]:
+            t.add("kind=" + m["kind"])
+        t.add("matches<=2" if len(obs["matches"]) <= 2 else "matches<=6" if len(obs["matches"]) <= 6 else "matches>6")
+        return sorted(t)
+
+
 LEVELS = ("match", "tokens", "nodes", "render")
 IMPLS = {"match": impl_match, "tokens": impl_tokens, "nodes": impl_nodes, "render": impl_render}
 
@@ -808,6 +922,8 @@ def oracle_level(level, case, obs):
     """the property stated directly on one level of observation"""
     ps = case["ps"]
     if level == "render":
+        if "async_differs" in obs:
+            return ("render|async-differs", f"render() gave {({k: v for k, v in obs.items() if k != 'async_differs'})!r}, render_async() gave {obs['async_differs']!r}")
         if "err" in obs:
             kinds = ",".join(sorted({kind_of(p) for p in ps if p[0] != "text"}))
             return (f"render|raises-{obs['err']}|kinds={kinds}", f"rendering a template of text/output/raw/comment/doc/liquid pieces raised {obs['err']}")
@@ -946,7 +1062,7 @@ class _PieceStream(Stream):
 
 
 def streams(ctx):
-    out = [SpacesStream(), StripStream()]
+    out = [SpacesStream(), StripStream(), ScanStream()]
     for fam in ("triple", "pair", "random"):
         out.append(_PieceStream(fam))
     return out
